@@ -28,10 +28,11 @@ verus! {
 //%include spec/sem.rs
 //%include spec/lemmas_tables.rs
 //%include prelude/vecspecs.rs
-//%include spec/optim.rs
 
-//%item optimiser.rs coalesce pub fn coalesce
-//%item optimiser.rs shake_0 fn shake_0
+//%include spec/matrix.rs
+//%include prelude/mxspecs.rs
+
+//%item optimiser.rs matrix pub fn matrix
 
 } // verus!
 fn main() {}
